@@ -18,7 +18,7 @@ for f in sys.argv[1:]:
     eat(open(f).read().splitlines())
 print('| seed | change (one line) | check run | result | first reporting harness [oracle] |')
 print('|---|---|---|---|---|')
-for d in sorted(glob.glob(os.path.join(V, 'seeded', '*'))):
+for d in sorted(glob.glob(os.path.join(V, 'seeded', 'C*'))):
     s = os.path.basename(d)
     m = json.load(open(os.path.join(d, 'meta.json')))
     summ = m['summary'].split('. ')[0][:150].replace('|', '/')
